@@ -43,9 +43,9 @@ CHECKS = {
     note=TB + "; platform TLS semantics; registration is not synchronised (a data race between a registering and a violating thread is outside the property as stated); inheritance by later-created threads is left open as in the property"),
  "C16": dict(
     engine="derive",
-    technique="SSA value-identity chain over the call graph of qsort_s.c/bsearch_s.c: every comparator call uses the function's own comparator/context parameters, forwarded unchanged from the exported entry",
+    technique="SSA value-identity chain over the call graph of qsort_s.c/bsearch_s.c: every comparator call uses the function's own comparator/context parameters, forwarded unchanged from the exported entry; inductive-invariant check of bsearch_s's search loop in the element-index domain (pointer arithmetic base + size*k divided by the symbolic element size; Fourier-Motzkin)",
     category="other",
-    text="Decides the clause 'the caller's context (and key) reaches every comparison' for all arrays and comparators: it is a property of the shape of the 7 comparator call sites and the internal calls leading to them. Sortedness, permutation, search completeness and staying inside nmemb*size are not decided (non-linear Leonardo-heap arithmetic).",
+    text="Decides the clause 'the caller's context (and key) reaches every comparison' for all arrays and comparators: it is a property of the shape of the 7 comparator call sites and the internal calls leading to them. For bsearch_s, 'compares only elements of the array and stays inside nmemb*size' is decided: 0 <= B, B + n <= nmemb is inductive over both paths of the search loop and the element handed to the comparator has an index in [0, nmemb). Sortedness, permutation, search completeness and qsort_s's staying inside nmemb*size are not decided (non-linear Leonardo-heap arithmetic).",
     design_ref="DESIGN.md §4 C16",
     note=TB + "; only the context/key-forwarding clause is claimed"),
  "C18": dict(
